@@ -86,7 +86,7 @@ theorem emitSwitch_newFrom (cfg : Config) (p : Blk → Prop) (s3 : FState) (b : 
 theorem processBlock_new_from (cfg : Config) (s : FState) (b : Blk) (f : Option Nat) (p : Blk → Prop)
     (hni : s.includeInit = false ∨ s.lastSent.isSome = true ∨ b.id ≠ s.db.libRef.id) (hlib : s.db.libRef.id ≠ "")
     (hp : ∀ u rd j lc, switchSegments cfg s b (triggers cfg s b) = some (u, rd, j) →
-      computeLongestChain cfg (afterLink s b) b = some lc → (s.db.addLink b).2 = false →
+      computeLongestChain cfg (afterLink s b) b = some lc → (s.db.addLink b).2 = false → lc ≠ [] →
       (∀ e ∈ rd, p e.blk) ∧ (∀ e ∈ lc, p e.blk)) :
     ∀ e ∈ (processBlock cfg s b f).2.1, e.step = .new → p e.blk := by
   unfold processBlock
@@ -107,7 +107,7 @@ theorem processBlock_new_from (cfg : Config) (s : FState) (b : Blk) (f : Option 
       | false => simp
       | true =>
         simp only [if_true, advanceLIB, finish]
-        obtain ⟨hprd, hplc⟩ := hp u rd j (c0 :: cs0) hsw hc hex
+        obtain ⟨hprd, hplc⟩ := hp u rd j (c0 :: cs0) hsw hc hex (by simp)
         generalize hs3 : ({ afterLink s b with cache := some (c0 :: cs0) } : FState) = s3
         have hnf := emitSwitch_newFrom cfg p s3 b (c0 :: cs0) u rd j f hprd hplc
         obtain ⟨t, ht, hg⟩ := advanceAcc_evs_sub cfg (emitSwitch cfg s3 b (c0 :: cs0) u rd j f) b none
@@ -119,5 +119,77 @@ theorem processBlock_new_from (cfg : Config) (s : FState) (b : Blk) (f : Option 
         · rcases hg e he with ⟨h1, _⟩ | h1
           · rw [h1] at hs; cases hs
           · rw [h1] at hs; cases hs
+
+/-- the entries a chain switch re-delivers are entries of the buffer -/
+theorem switchSegments_stored (cfg : Config) (s : FState) (b : Blk) (trig : Bool) (u rd : List Entry) (j : Option Ref)
+    (h : switchSegments cfg s b trig = some (u, rd, j)) : ∀ r ∈ rd, s.db.find r.blk.id = some r := by
+  unfold switchSegments at h
+  split at h
+  · cases hls : s.lastSent with
+    | none => rw [hls] at h; simp only [Option.some.injEq, Prod.mk.injEq] at h; obtain ⟨_, rfl, _⟩ := h; simp
+    | some l =>
+      rw [hls] at h
+      simp only at h
+      unfold sentChainSwitch at h
+      split at h
+      · simp only [Option.some.injEq, Prod.mk.injEq] at h; obtain ⟨_, rfl, _⟩ := h; simp
+      · cases hcs : s.db.chainSwitchSegments l.id b.parent with
+        | none => rw [hcs] at h; simp only [Option.some.injEq, Prod.mk.injEq] at h; obtain ⟨_, rfl, _⟩ := h; simp
+        | some t =>
+          obtain ⟨undo, redo, jj⟩ := t
+          rw [hcs] at h
+          simp only at h
+          cases hus : undo.mapM s.db.find with
+          | none => rw [hus] at h; simp at h
+          | some us =>
+            cases hrs : redo.mapM s.db.find with
+            | none => rw [hus, hrs] at h; simp at h
+            | some rs =>
+              rw [hus, hrs] at h
+              simp only [Option.some.injEq, Prod.mk.injEq] at h
+              obtain ⟨_, rfl, _⟩ := h
+              intro r hr
+              exact (mapM_find_spec s.db redo rs hrs).2 r (List.mem_filter.mp hr).1
+  · simp only [Option.some.injEq, Prod.mk.injEq] at h; obtain ⟨_, rfl, _⟩ := h; simp
+
+/-- **every block delivered as New is strictly above the LIB the forkable had when the incoming block arrived** (which
+    is the cursor LIB of these events): blocks of the redo segment and of the new longest chain lie on the path from
+    the LIB to the incoming block, heights grow along it, and the chain entries carry the stored heights -/
+theorem processBlock_new_above_lib (cfg : Config) (s : FState) (P : List Id) (b : Blk) (f : Option Nat) (hI : Inv s P)
+    (hni : s.includeInit = false ∨ s.lastSent.isSome = true ∨ b.id ≠ s.db.libRef.id)
+    (hcl : SentClosed s.db) (hb : WFin b) (hB : HB s.db b) :
+    ∀ e ∈ (processBlock cfg s b f).2.1, e.step = .new → s.db.libRef.num < e.blk.num := by
+  apply processBlock_new_from cfg s b f (fun blk => s.db.libRef.num < blk.num) hni hI.libNe
+  intro u rd j lc hsw hc hex hne
+  obtain ⟨hf, _⟩ := fresh_of_addLink s.db b hI.wf hb hex
+  rw [afterLink_eq s b hI.wf hb hex] at hc
+  obtain ⟨hp, hn, hfa, htop, _⟩ := compute_chain_path cfg s P b hI hb hB hf lc hc
+  have hh' := heights_append s.db b hI.heights hb hB
+  have habove : ∀ x ∈ lc.map (·.blk.id), ∀ e, (appendBlk s.db b).find x = some e → s.db.libRef.num < e.blk.num :=
+    heights_path (appendBlk s.db b) hh' s.db.libRef.id s.db.libRef.num _ hp hh'.2.1
+  have hlc : ∀ e ∈ lc, s.db.libRef.num < e.blk.num := by
+    intro e he
+    obtain ⟨e0, h0, _, hnum⟩ := hfa e he
+    rw [← hnum]; exact habove _ (List.mem_map.mpr ⟨e, he, rfl⟩) e0 h0
+  refine ⟨?_, hlc⟩
+  by_cases hcase : (cfg.matches .undo && triggers cfg s b) = true
+  · simp only [Bool.and_eq_true] at hcase
+    obtain ⟨hundo, htr⟩ := hcase
+    rw [htr] at hsw
+    obtain ⟨lcA, lcB, Pj, hlceq, _, _, hA, _, _⟩ := switch_decomp cfg hundo s P b hI hcl hf lc hne hp hn htop u rd j hsw
+    have hst := switchSegments_stored cfg s b true u rd j hsw
+    intro r hr
+    have hrs := hst r hr
+    have hrne : r.blk.id ≠ b.id := by intro hc'; rw [hc', hf] at hrs; cases hrs
+    have hmem : r.blk.id ∈ lc.map (·.blk.id) := by
+      rw [hlceq, List.map_append, hA]
+      simp only [List.mem_append, List.mem_map]
+      exact Or.inl (Or.inr ⟨r, hr, rfl⟩)
+    exact habove _ hmem r (by unfold appendBlk; rw [find_append_other s.db b _ hrne]; exact hrs)
+  · unfold switchSegments at hsw
+    rw [if_neg hcase] at hsw
+    simp only [Option.some.injEq, Prod.mk.injEq] at hsw
+    obtain ⟨_, rfl, _⟩ := hsw
+    simp
 
 end BstreamVerif.Forkable
